@@ -2,7 +2,7 @@
 # Self-test of the Go -> Lean function translation (docs/TRANSLATOR.md §5).
 #
 #   extract/selftest_funcs.sh [clean-source-dir]
-#   JOBS=6 extract/selftest_funcs.sh      (rows in parallel; ~110 rows, about 3 min each)
+#   JOBS=6 extract/selftest_funcs.sh      (rows in parallel; ~130 rows, about 3 min each)
 #   ONLY="M64 M65 H9" ...                  (selected rows)   GENONLY=1 ... (regeneration only, no proofs)
 #
 # (i)   regenerates Rigo/Generated/Funcs.lean from a clean copy of rigo-go and compiles the equality
@@ -22,7 +22,7 @@ EXPECT=${EXPECT:-$VERIF/expect}
 W=${W:-$VERIF/.work/translator/selftest}
 LEANSRC=${LEANSRC:-$VERIF/lean}   # where RigoProofs/GenFuncs*.lean are taken from
 MAIN=$VERIF/lean/.lake/build/lib/lean
-PROOFS=${PROOFS-"GenFuncsBase GenFuncsSimple GenFuncsLoops GenFuncsLimiter GenFuncsSigner GenFuncsSlash GenFuncsValUpd GenFuncsStake2 GenFuncsTx GenFuncsMerge GenFuncsLimiter2 GenFuncsGovBase GenFuncsGovMisc GenFuncsGov GenFuncsGovPunish GenFuncsCtrlBase GenFuncsCtrlGovV GenFuncsCtrlStakeV1 GenFuncsCtrlStakeV2 GenFuncsCtrlStakeV GenFuncsCtrlAcct GenFuncsCtrlStakeX GenFuncsCtrlUnstake GenFuncsCtrlGovX GenFuncsCtrlGovBlk1 GenFuncsCtrlGovBlk2 GenFuncsCtrlGovBlk GenFuncsCtrlStakeBlk GenFuncs"}
+PROOFS=${PROOFS-"GenFuncsBase GenFuncsSimple GenFuncsLoops GenFuncsLimiter GenFuncsSigner GenFuncsSignerSign GenFuncsSlash GenFuncsValUpd GenFuncsStake2 GenFuncsTx GenFuncsMerge GenFuncsLimiter2 GenFuncsGovBase GenFuncsGovMisc GenFuncsGov GenFuncsGovPunish GenFuncsCtrlBase GenFuncsCtrlGovV GenFuncsCtrlStakeV1 GenFuncsCtrlStakeV2 GenFuncsCtrlStakeV GenFuncsCtrlAcct GenFuncsCtrlStakeX GenFuncsCtrlUnstake GenFuncsCtrlGovX GenFuncsCtrlGovBlk1 GenFuncsCtrlGovBlk2 GenFuncsCtrlGovBlk GenFuncsCtrlStakeBlk GenFuncsLedgerMem GenFuncsLedger GenFuncs"}
 ONLY=${ONLY:-}   # e.g. ONLY="M14 M15 H5": run only these rows (besides the clean base)
 rm -rf "$W"; mkdir -p "$W"
 OWN_WT=""
@@ -36,7 +36,7 @@ trap cleanup EXIT
 mkdir -p "$VERIF/.build"
 ( flock 9; cp "$SRC/go.sum" "$HERE/go.sum" 2>/dev/null; cd "$HERE" && go build -o "$W/rigoextract" . ) 9>"$VERIF/.build/go.lock" \
   || { echo "extractor does not build"; exit 2; }
-for m in Rigo/Types Rigo/StakeLogic Rigo/App Rigo/Block Rigo/Signer Rigo/Determinism RigoProofs/C01Sort RigoProofs/TxCommon; do
+for m in Rigo/Ledger/Impl Rigo/Types Rigo/StakeLogic Rigo/App Rigo/Block Rigo/Signer Rigo/Determinism RigoProofs/C01Sort RigoProofs/TxCommon; do
   [ -f "$MAIN/$m.olean" ] || { echo "missing $MAIN/$m.olean: build the model first"; exit 2; }
 done
 
@@ -343,6 +343,61 @@ run M103 m_103 $GC 1 'if prop.EndVotingHeight < height {' 'if prop.EndVotingHeig
 run M104 m_104 $GC 1 'if xerr := ctrler.frozenLedger.SetFinality(prop); xerr != nil {' 'if xerr := ctrler.proposalLedger.SetFinality(prop); xerr != nil {' "freezeProposals: frozen proposal written to the open ledger"
 run M105 m_105 $SC 1 'rwdObj, xerr := ctrler.rewardLedger.GetFinality(ledger.ToLedgerKey(s0.From))' 'rwdObj, xerr := ctrler.rewardLedger.GetFinality(ledger.ToLedgerKey(s0.To))' "doRewardTo: reward object of the delegatee"
 flush_rows
+# ---- round 4: the ledger package itself (memItems, SimpleLedger, FinalityLedger)
+LG=ledger
+run M106 m_106 $LG/finality_ledger.go 1 'if item, ok := ledger.finalityItems.getGotItem(key); ok {
+		return item, nil
+	}
+
+	// if the item is already removed, return xerrors.ErrNotFoundResult
+	if ledger.finalityItems.isRemovedKey(key) {
+		return emptyNil, xerrors.ErrNotFoundResult
+	}' 'if ledger.finalityItems.isRemovedKey(key) {
+		return emptyNil, xerrors.ErrNotFoundResult
+	}
+	if item, ok := ledger.finalityItems.getGotItem(key); ok {
+		return item, nil
+	}' "getFinality: removed list consulted before the cache"
+run M107 m_107 $LG/finality_ledger.go 1 '		ledger.finalityItems.delUpdatedItem(key)   // delete(ledger.updatedItems, key)
+' '' "DelFinality: delUpdatedItem dropped"
+run M108 m_108 $LG/finality_ledger.go 1 'range ledger.finalityItems.removedKeys {' 'range ledger.SimpleLedger.cachedItems.removedKeys {' "Commit: removed keys of the mempool overlay applied"
+run M109 m_109 $LG/mem_items.go 2 '	m.removedKeys = nil
+' '' "refresh: removedKeys not cleared"
+run M110 m_110 $LG/simple_ledger.go 1 '		ledger.cachedItems.setGotItem(item)
+		return item, nil' '		return item, nil' "get: item read from the tree not cached"
+run M111 m_111 $LG/simple_ledger.go 1 '	ledger.cachedItems.setUpdatedItem(item)
+	ledger.cachedItems.setGotItem(item)' '	ledger.cachedItems.setUpdatedItem(item)' "Set: got cache not written"
+run M112 m_112 $LG/finality_ledger.go 1 '		ledger.finalityItems.refresh()' '		ledger.finalityItems.reset()' "Commit: consensus overlay reset instead of refreshed"
+run M113 m_113 $LG/mem_items.go 1 'm.removedKeys = append(m.removedKeys[:i], m.removedKeys[i+1:]...)
+			return' 'm.removedKeys = append(m.removedKeys[:i], m.removedKeys[i+1:]...)' "delRemovedKey: loop goes on after the removal (refused)"
+run M114 m_114 $LG/simple_ledger.go 1 '} else if key != item.Key() {' '} else if key == item.Key() {' "read: key check negated"
+run M115 m_115 $LG/finality_ledger.go 1 '		ledger.SimpleLedger.cachedItems.reset()
+' '' "Commit: mempool overlay survives the commit"
+# ---- round 4: the signer's decision logic (signVote, signProposal, saveSigned)
+SF=types/crypto/sfile_pv.go
+run M116 m_116 $SF 1 'height, round, step := proposal.Height, proposal.Round, stepPropose' 'height, round, step := proposal.Height, proposal.PolRound, stepPropose' "signProposal: PolRound checked and saved instead of Round"
+run M117 m_117 $SF 1 'if bytes.Equal(signBytes, lss.SignBytes) {' 'if len(lss.SignBytes) > 0 {' "signVote: stored signature reused without comparing the sign bytes"
+run M118 m_118 $SF 1 '	pv.LastSignState.Signature = sig
+	pv.LastSignState.SignBytes = signBytes
+	pv.LastSignState.Save()' '	pv.LastSignState.Save()
+	pv.LastSignState.Signature = sig
+	pv.LastSignState.SignBytes = signBytes' "saveSigned: persisted before signature / sign bytes are set"
+run M119 m_119 $SF 1 '	pv.LastSignState.SignBytes = signBytes
+	pv.LastSignState.Save()' '	pv.LastSignState.SignBytes = signBytes
+	defer pv.LastSignState.Save()' "saveSigned: Save deferred (refused)"
+run M120 m_120 $SF 1 '	pv.LastSignState.Round = round
+' '	pv.LastSignState.Round = 0
+' "saveSigned: round not recorded"
+run M121 m_121 $SF 1 '	case tmproto.PrevoteType:
+		return stepPrevote' '	case tmproto.PrevoteType:
+		return stepPrecommit' "voteToStep: prevote mapped to the precommit step"
+run M122 m_122 $SF 1 '			err = xerrors.From(fmt.Errorf("conflicting data"))' '			err = nil' "signVote: conflicting data not reported"
+run M123 m_123 $SF 2 '	pv.saveSigned(height, round, step, signBytes, sig)
+' '' "signProposal: fresh signature handed out without saveSigned"
+run M124 m_124 $SF 1 '			vote.Timestamp = timestamp
+' '			_ = timestamp
+' "signVote: stored timestamp not handed back"
+flush_rows
 echo "---- (iii) harmless rewrites (either outcome is acceptable)"
 run H1 h_1 ctrlers/types/gov_params.go 1 '_vp := new(uint256.Int).Div(amt, amountPerPower)
 	vp := int64(_vp.Uint64())' 'quot := new(uint256.Int).Div(amt, amountPerPower)
@@ -421,6 +476,32 @@ run H13 h_13 ctrlers/gov/ctrler.go 1 'setProposal := ctrler.proposalLedger.Set
 run H14 h_14 ctrlers/stake/ctrler.go 1 'power := ctrlertypes.AmountToPower(ctx.Tx.Amount)
 	s0 := NewStakeWithPower(ctx.Tx.From, ctx.Tx.To, power, ctx.Height+1, ctx.TxHash)' 'pw := ctrlertypes.AmountToPower(ctx.Tx.Amount)
 	s0 := NewStakeWithPower(ctx.Tx.From, ctx.Tx.To, pw, ctx.Height+1, ctx.TxHash)' "exeStaking: local power renamed"
+run H15 h_15 ledger/finality_ledger.go 1 'if item, ok := ledger.finalityItems.getGotItem(key); ok {
+		return item, nil
+	}' 'if it0, found := ledger.finalityItems.getGotItem(key); found {
+		return it0, nil
+	}' "getFinality: locals renamed"
+run H16 h_16 ledger/finality_ledger.go 1 '		ledger.finalityItems.delGotItem(key)       // delete(ledger.gotItems, key)
+		ledger.finalityItems.delUpdatedItem(key)   // delete(ledger.updatedItems, key)' '		ledger.finalityItems.delUpdatedItem(key)   // delete(ledger.updatedItems, key)
+		ledger.finalityItems.delGotItem(key)       // delete(ledger.gotItems, key)' "DelFinality: two independent deletes swapped"
+run H17 h_17 types/crypto/sfile_pv.go 1 '	sameHRS, err := lss.CheckHRS(height, round, step)
+	if err != nil {
+		return err
+	}
+
+	signBytes := tmtypes.VoteSignBytes(chainID, vote)' '	sameHRS, err := lss.CheckHRS(height, round, step)
+	if err != nil {
+		return err
+	}
+
+	signBytes := tmtypes.VoteSignBytes(chainID, vote)
+	_ = sameHRS' "signVote: a blank use of a local added"
+run H18 h_18 types/crypto/sfile_pv.go 1 '	pv.LastSignState.Height = height
+	pv.LastSignState.Round = round' '	pv.LastSignState.Round = round
+	pv.LastSignState.Height = height' "saveSigned: two independent assignments swapped"
+run H19 h_19 types/crypto/sfile_pv.go 1 '	pv.saveSigned(height, round, step, signBytes, sig)
+	vote.Signature = sig' '	vote.Signature = sig
+	pv.saveSigned(height, round, step, signBytes, sig)' "signVote: signature set before saveSigned (no crash points in a sequential translation: NOT observable)"
 flush_rows
 echo
 bad=0
